@@ -26,6 +26,9 @@ use super::traits::InnerReaderTrait;
 ///
 /// According to benchmarking on compression of representative data, 4MB seems
 /// to be a good choice
+#[cfg(feature = "mla_verif")]
+const UNCOMPRESSED_DATA_SIZE: u32 = 256;
+#[cfg(not(feature = "mla_verif"))]
 const UNCOMPRESSED_DATA_SIZE: u32 = 4 * 1024 * 1024;
 
 /// A bigger value means a better compression ratio, but a slower compression
@@ -61,6 +64,23 @@ impl ArchiveWriterConfig {
         }
     }
 }
+
+// ---------- Verification hooks (feature `mla_verif` only) ----------
+
+#[cfg(feature = "mla_verif")]
+impl CompressionConfig {
+    /// Configuration with a chosen compression level
+    pub const fn verif_new(compression_level: u32) -> Self {
+        Self { compression_level }
+    }
+}
+
+/// (`UNCOMPRESSED_DATA_SIZE`, `FAIL_SAFE_BUFFER_SIZE`) as compiled
+#[cfg(feature = "mla_verif")]
+pub const VERIF_CONSTANTS: (u64, u64) = (
+    UNCOMPRESSED_DATA_SIZE as u64,
+    FAIL_SAFE_BUFFER_SIZE as u64,
+);
 
 // ---------- Reader ----------
 
@@ -822,6 +842,9 @@ impl<'a, R: 'a + Read> LayerFailSafeReader<'a, R> for CompressionLayerFailSafeRe
     }
 }
 
+#[cfg(feature = "mla_verif")]
+const FAIL_SAFE_BUFFER_SIZE: usize = 32;
+#[cfg(not(feature = "mla_verif"))]
 const FAIL_SAFE_BUFFER_SIZE: usize = 4096;
 
 impl<'a, R: 'a + Read> Read for CompressionLayerFailSafeReader<'a, R> {
